@@ -398,6 +398,26 @@ fn cases_for(v: u8, ty: &str, f: &mut dyn FnMut(Case)) {
             f(Case { version: v, event: ev, because: false });
         }
     }
+    // (d) "empty" values: a kept key keeps its value whatever it is — an empty array, object or string, false, 0
+    // and null are values, not absence. Every content key (all together, and one at a time) and the
+    // version-sensitive top-level keys with each of them.
+    for empty in [json!([]), json!({}), json!(""), json!(false), json!(0), Value::Null] {
+        let mut full_content = content_for(ty, full, 0, None);
+        for (_, val) in full_content.iter_mut() {
+            *val = empty.clone();
+        }
+        let mut ev = base_event(ty);
+        for k in SENSITIVE_TOP.iter() {
+            ev.insert((*k).to_owned(), empty.clone());
+        }
+        ev.insert("content".into(), Value::Object(full_content));
+        f(Case { version: v, event: ev, because: false });
+        for k in uni.iter() {
+            let mut ev = base_event(ty);
+            ev.insert("content".into(), json!({ *k: empty.clone(), "foo": empty.clone() }));
+            f(Case { version: v, event: ev, because: true });
+        }
+    }
     // (c) malformed: content non-object, type non-string
     for bad_content in [json!("str"), json!(1), json!(null), json!([1]), json!(true)] {
         let mut ev = base_event(ty);
